@@ -115,6 +115,18 @@ def run(rep, tier, root=None):
             st0 = stores[0]
             stores = [(st0[0], st0[1], stores[0][2][1] + (cvar - key[0]) / key[2], lc.args[0], st0[4], st0[5], st0[6])]
             loops = [(f.fq, st0[4], cvar, RangeVal(key[0], key[1], key[2]))]
+    # the lag loop written `for j, c in enumerate(range(lo, hi, st), start=k)`: position # and item c = lo + # st name the same
+    # iteration; rewritten in terms of c it is the loop `for c in range(lo, hi, st)`
+    if len(loops) == 1 and len(stores) == 1 and isinstance(loops[0][3], tuple) and loops[0][3] and loops[0][3][0] == "enumerate" and \
+            isinstance(loops[0][3][1], RangeVal) and isinstance(loops[0][2], tuple) and len(loops[0][2]) == 2:
+        R_ = loops[0][3][1]
+        pos_syms = [a for a in (loops[0][2][0].atoms() if isinstance(loops[0][2][0], Rat) else ()) if isinstance(a, Sym) and "loopvar" in a.flags]
+        if len(pos_syms) == 1 and isinstance(R_.step, Rat) and not R_.step.is_zero():
+            cvar = Rat.sym("c@lag", ("int", "loopvar"))
+            sub = lambda v_: v_.subst(lambda a: ((cvar - R_.lo) / R_.step) if a == pos_syms[0] else None) if isinstance(v_, Rat) else v_
+            st0 = stores[0]
+            stores = [(st0[0], st0[1], sub(st0[2]), sub(st0[3]), st0[4], st0[5], st0[6])]
+            loops = [(f.fq, loops[0][1], cvar, R_)]
     if len(rets) != 1 or len(stores) != 1 or len(loops) != 1:
         rep.unknown("T1.lag-definition", f.fq, "expected one return path, one lag loop and one store; found %d/%d/%d"
                     % (len(rets), len(loops), len(stores)), f.where())
@@ -327,7 +339,7 @@ def _allocation(ret):
 def _alloc_extent(f, I, *args):
     """extent passed to the allocation call (numpy.empty / zeros) of the returned array, re-evaluated."""
     for (fq, callee, cargs, ckw, lineno, _cnf) in I.call_log:
-        if fq == f.fq and callee.split(".")[-1] in ("empty", "zeros") and cargs:
+        if fq == f.fq and callee.split(".")[-1] in ("empty", "zeros", "full", "ones") and cargs:
             e = cargs[0]
             if isinstance(e, (tuple, list)) and e:
                 e = e[0]
